@@ -1,5 +1,7 @@
 package c17
 
+import "wzverif/internal/gen"
+
 // fixedCases: hand-written histories every run executes first.
 func fixedCases() []Case {
 	s := func(x string) Val { return Val{T: "s", S: x} }
@@ -11,7 +13,22 @@ func fixedCases() []Case {
 		{Runs: []DocRun{{T: "{{#if isVip}}VIP{{/if}}"}}},
 		{Table: [][]string{{"Name", "Role"}, {"{{#each people}}{{pname}}", "{{role}}{{/each}}"}}},
 	}, HasHeader: true, Header: "Report {{title}}"}
+	png, jpg, gif := gen.Img{Fmt: "png", W: 4, H: 4, Pat: 1, Name: "logo"}, gen.Img{Fmt: "jpeg", W: 4, H: 4, Pat: 2, Name: "logo"}, gen.Img{Fmt: "gif", W: 3, H: 2, Pat: 3, Name: "x.gif"}
+	pic := func(im gen.Img, title string) Data {
+		return Data{Vars: map[string]Val{"title": s(title)}, Images: map[string]gen.Img{"logo": im}}
+	}
+	// three header / footer parts, a picture and a note of its own, a picture placeholder
+	roomy := &DocSpec{Elems: []DocElem{{Runs: []DocRun{{T: "Report {{title}}"}}}, {Runs: []DocRun{{T: "{{#image logo}}"}}}, {Runs: []DocRun{{T: "end"}}}},
+		HasHeader: true, Header: "header {{title}}", HasFooter: true, Footer: "footer", HF: []DocHF{{Type: "first", Text: "first header"}}, Image: &gif, Footnote: true, ListItems: 1}
 	return []Case{
+		// one document template rendered with pictures of three formats in a row; the caller keeps every result and
+		// goes on working with them
+		{Datas: []Data{pic(png, "one"), pic(jpg, "two"), pic(gif, "three")}, Ops: []Op{{K: "loaddoc", Name: "t0", Doc: roomy},
+			{K: "render", Name: "t0", Entry: 1}, {K: "render", Name: "t0", Entry: 1, Data: 1}, {K: "render", Name: "t0", Data: 2},
+			{K: "edit", Ref: 4, Edit: &EditSpec{K: "image", Img: &png}}, {K: "edit", Ref: 2, Edit: &EditSpec{K: "header", Type: "even", Text: "even"}},
+			{K: "edit", Ref: 3, Edit: &EditSpec{K: "footnote", Text: "n"}}, {K: "edit", Ref: 0, Edit: &EditSpec{K: "list", Text: "item"}},
+			{K: "edit", Ref: 5, Edit: &EditSpec{K: "style", Text: "renamed"}}, {K: "edit", Ref: 1, Edit: &EditSpec{K: "runtext", Text: "EDITED"}},
+			{K: "render", Name: "t0", Entry: 1}}},
 		// a template rendered before and after unrelated loads, a removal and a cache clear + re-load
 		{Datas: []Data{data}, Ops: []Op{
 			{K: "load", Name: "t0", Src: base}, {K: "render", Name: "t0"},
